@@ -261,8 +261,15 @@ func (n *node) RouteSendEvent(from gen.PID, token gen.Ref, options gen.MessageOp
 
 	consumers := n.targetManager.GetConsumersForTarget(message.Event)
 	remote := make(map[gen.Atom]bool)
+	// a process that links and monitors the event is listed once per relation:
+	// it gets the message once
+	delivered := make(map[gen.PID]bool, len(consumers))
 	// local delivery
 	for _, pid := range consumers {
+		if delivered[pid] {
+			continue
+		}
+		delivered[pid] = true
 		if pid.Node == n.name {
 			n.sendEventMessage(from, pid, options.Priority, message)
 			continue
